@@ -40,6 +40,8 @@ class HeterEventQueueBase : public HeterEventDispatcherBase<
 	>
 {
 private:
+	EVENTPP_VERIF_FRIEND
+
 	using super = HeterEventDispatcherBase<
 		EventType_,
 		PrototypeList_,
@@ -141,16 +143,20 @@ public:
 
 	bool emptyQueue() const
 	{
+		EVENTPP_VERIF_RACY_READ_SCOPE();
 		return queueList.empty() && (queueEmptyCounter.load(std::memory_order_acquire) == 0);
 	}
 
 	void clearEvents()
 	{
+		EVENTPP_VERIF_RACY_READ_BEGIN();
 		if(! queueList.empty()) {
+			EVENTPP_VERIF_RACY_READ_END();
 			BufferedItemList tempList;
 
 			{
 				std::lock_guard<Mutex> queueListLock(queueListMutex);
+				EVENTPP_VERIF_POINT("q.queueList.cs");
 				std::swap(queueList, tempList);
 			}
 
@@ -160,14 +166,18 @@ public:
 				}
 
 				std::lock_guard<Mutex> queueListLock(freeListMutex);
+				EVENTPP_VERIF_POINT("q.freeList.cs");
 				freeList.splice(freeList.end(), tempList);
 			}
 		}
+		EVENTPP_VERIF_RACY_READ_END();
 	}
 
 	bool process()
 	{
+		EVENTPP_VERIF_RACY_READ_BEGIN();
 		if(! queueList.empty()) {
+			EVENTPP_VERIF_RACY_READ_END();
 			BufferedItemList tempList;
 
 			// Use a counter to tell the queue list is not empty during processing
@@ -176,6 +186,7 @@ public:
 
 			{
 				std::lock_guard<Mutex> queueListLock(queueListMutex);
+				EVENTPP_VERIF_POINT("q.queueList.cs");
 				std::swap(queueList, tempList);
 			}
 
@@ -186,18 +197,22 @@ public:
 				}
 
 				std::lock_guard<Mutex> queueListLock(freeListMutex);
+				EVENTPP_VERIF_POINT("q.freeList.cs");
 				freeList.splice(freeList.end(), tempList);
 
 				return true;
 			}
 		}
+		EVENTPP_VERIF_RACY_READ_END();
 
 		return false;
 	}
 
 	bool processOne()
 	{
+		EVENTPP_VERIF_RACY_READ_BEGIN();
 		if(! queueList.empty()) {
+			EVENTPP_VERIF_RACY_READ_END();
 			BufferedItemList tempList;
 
 			// Use a counter to tell the queue list is not empty during processing
@@ -206,6 +221,7 @@ public:
 
 			{
 				std::lock_guard<Mutex> queueListLock(queueListMutex);
+				EVENTPP_VERIF_POINT("q.queueList.cs");
 				if(! queueList.empty()) {
 					tempList.splice(tempList.end(), queueList, queueList.begin());
 				}
@@ -217,11 +233,13 @@ public:
 				item.clear();
 
 				std::lock_guard<Mutex> queueListLock(freeListMutex);
+				EVENTPP_VERIF_POINT("q.freeList.cs");
 				freeList.splice(freeList.end(), tempList);
 
 				return true;
 			}
 		}
+		EVENTPP_VERIF_RACY_READ_END();
 
 		return false;
 	}
@@ -229,9 +247,12 @@ public:
 	template <typename F>
 	bool processIf(F && func)
 	{
+		EVENTPP_VERIF_RACY_READ_BEGIN();
 		if(queueList.empty()) {
+			EVENTPP_VERIF_RACY_READ_END();
 			return false;
 		}
+		EVENTPP_VERIF_RACY_READ_END();
 
 		using PrototypeInfo = FindPrototypeByCallable<PrototypeList, F>;
 		return doProcessIf<PrototypeInfo>(std::forward<F>(func));
@@ -301,6 +322,7 @@ private:
 
 		{
 			std::lock_guard<Mutex> queueListLock(queueListMutex);
+			EVENTPP_VERIF_POINT("q.queueList.cs");
 			std::swap(queueList, tempList);
 		}
 
@@ -332,11 +354,13 @@ private:
 
 			if (! tempList.empty()) {
 				std::lock_guard<Mutex> queueListLock(queueListMutex);
+				EVENTPP_VERIF_POINT("q.queueList.cs");
 				queueList.splice(queueList.begin(), tempList);
 			}
 
 			if(! idleList.empty()) {
 				std::lock_guard<Mutex> queueListLock(freeListMutex);
+				EVENTPP_VERIF_POINT("q.freeList.cs");
 				freeList.splice(freeList.end(), idleList);
 
 				return true;
@@ -420,14 +444,19 @@ private:
 	void doEnqueueItem(T && item)
 	{
 		BufferedItemList tempList;
+		EVENTPP_VERIF_RACY_READ_BEGIN();
 		if(! freeList.empty()) {
+			EVENTPP_VERIF_RACY_READ_END();
 			{
 				std::lock_guard<Mutex> queueListLock(freeListMutex);
+				EVENTPP_VERIF_POINT("q.freeList.cs");
 				if(! freeList.empty()) {
 					tempList.splice(tempList.end(), freeList, freeList.begin());
 				}
 			}
 		}
+
+		EVENTPP_VERIF_RACY_READ_END();
 
 		if(tempList.empty()) {
 			tempList.emplace_back();
@@ -437,6 +466,7 @@ private:
 		it->set(std::move(item));
 
 		std::lock_guard<Mutex> queueListLock(queueListMutex);
+		EVENTPP_VERIF_POINT("q.queueList.cs");
 		queueList.splice(queueList.end(), tempList, it);
 	}
 
